@@ -231,6 +231,47 @@ def utf8_prefix_state(data):
     return (True, True, None)
 
 
+def utf8_profile(data):
+    """one pass: (first_bad_index or None, bytearray flags where flags[L]==1 iff data[:L] ends on a code point boundary)
+    flags are meaningful for L <= first_bad_index (or all L when None)."""
+    n = len(data)
+    flags = bytearray(n + 1)
+    flags[0] = 1
+    i = 0
+    while i < n:
+        b = data[i]
+        if b <= 0x7F:
+            i += 1
+            flags[i] = 1
+            continue
+        if 0xC2 <= b <= 0xDF:
+            need = ((0x80, 0xBF),)
+        elif b == 0xE0:
+            need = ((0xA0, 0xBF), (0x80, 0xBF))
+        elif 0xE1 <= b <= 0xEC or 0xEE <= b <= 0xEF:
+            need = ((0x80, 0xBF), (0x80, 0xBF))
+        elif b == 0xED:
+            need = ((0x80, 0x9F), (0x80, 0xBF))
+        elif b == 0xF0:
+            need = ((0x90, 0xBF), (0x80, 0xBF), (0x80, 0xBF))
+        elif 0xF1 <= b <= 0xF3:
+            need = ((0x80, 0xBF),) * 3
+        elif b == 0xF4:
+            need = ((0x80, 0x8F), (0x80, 0xBF), (0x80, 0xBF))
+        else:
+            return i, flags
+        j = i + 1
+        for lo, hi in need:
+            if j >= n:
+                return None, flags
+            if not (lo <= data[j] <= hi):
+                return j, flags
+            j += 1
+        i = j
+        flags[i] = 1
+    return None, flags
+
+
 class Receiver:
     """Feed frames (as dicts/Frame-likes built by the generator, i.e. independent of any
     parser).  Produces expected events for the well-formed prefix and the verdict."""
